@@ -305,7 +305,7 @@ impl<A: Read + Write + io::Seek> ZipWriter<A> {
             .map(|_| central_header_to_zip_file(&mut readwriter, archive_offset))
             .collect::<Result<Vec<_>, _>>()?;
 
-        let _ = readwriter.seek(io::SeekFrom::Start(directory_start)); // seek directory_start to overwrite it
+        readwriter.seek(io::SeekFrom::Start(directory_start))?; // seek directory_start to overwrite it
 
         Ok(ZipWriter {
             inner: GenericZipWriter::Storer(MaybeEncrypted::Unencrypted(readwriter)),
